@@ -47,7 +47,8 @@ JOB = "job"
 # ------------------------------------------------------------------------------------------------ generation
 STR_PLAIN = ["x", "y", "abc", "B"]
 STR_AWK = ["x y", " lead", "1.5", "a.b", "é", "中文", "\U0001F600", "a b.c", "", "1", "True", "None"]
-STR_EVIL = [".", "..", JOB, "a/b", "/", "job/x"]
+ROOTMARK = "@ROOT@"   # replaced by the case directory at run time: absolute values stay inside the scratch area
+STR_EVIL = [".", "..", JOB, "a/b", ROOTMARK + "/a/esc", "job/x", "x/"]
 KEYS = ["a", "b", "c", "k k", "é", "B"]
 
 
@@ -202,6 +203,8 @@ def fixed_histories():
       [dict(V, ids=[2, 3]), dict(V, ids=[0, 1])])
     h("fix-dotdot", [{"a": ".."}, {"a": "x"}], [dict(V, path="{a}"), dict(V, path="{a}")])
     h("fix-emptyval", [{"a": ""}, {"a": "x"}], [dict(V, path="p/{a}/q"), dict(V, path="p/{a}/q")])
+    h("fix-nested-abs", [{"a": {"b": ROOTMARK + "/a/esc"}}, {"a": {"b": "x"}}], [V, V])
+    h("fix-nested-sep", [{"a": {"b": "x/y"}}, {"a": {"b": "x"}}], [V, V])
     h("fix-two-prefixes", [{"a": 1}, {"a": 2}, {"a": 3}],
       [V, dict(V, prefix="w", ids=[0, 1]), {"op": "remove", "i": 1}, V, dict(V, prefix="w")], rel=True)
     return H
@@ -289,9 +292,16 @@ class Tracer:
     """Counts successful mutating calls and records the order of attempted unlink/rmdir/symlink."""
     NAMES = ("unlink", "rmdir", "symlink", "mkdir", "remove", "rename", "replace")
 
-    def __init__(self):
+    def __init__(self, root):
         self.attempts = []
         self.ops = 0
+        self.root = root
+        self.escaped = False
+
+    def _contained(self, p):
+        p = os.fspath(p)
+        parent = os.path.realpath(os.path.dirname(os.path.abspath(p)))
+        return parent == self.root or parent.startswith(self.root + os.sep)
 
     def __enter__(self):
         self.saved = {n: getattr(os, n) for n in self.NAMES}
@@ -301,6 +311,11 @@ class Tracer:
 
     def _wrap(self, name, fn):
         def w(*a, **kw):
+            # safety net: the code under test (or a mutant of it) must never touch anything outside the case directory
+            targets = [a[1]] if name == "symlink" else ([a[0], a[1]] if name in ("rename", "replace") else [a[0]])
+            if not all(self._contained(t) for t in targets):
+                self.escaped = True
+                raise PermissionError(13, "verification harness: path outside the case directory", os.fspath(targets[0]))
             if name in ("unlink", "rmdir", "remove"):
                 self.attempts.append(os.fspath(a[0]))
             elif name == "symlink":
@@ -337,9 +352,18 @@ def run_case(desc):
         project = signac.init_project(path=pdir)
         live = []   # state points of live jobs in creation order
 
+        def subst(v):
+            if isinstance(v, str):
+                return v.replace(ROOTMARK, root)
+            if isinstance(v, list):
+                return [subst(x) for x in v]
+            if isinstance(v, dict):
+                return {k: subst(x) for k, x in v.items()}
+            return v
+
         def add(sp):
             try:
-                job = project.open_job(sp)
+                job = project.open_job(subst(sp))
                 if job in project:
                     return
                 job.init()
@@ -372,7 +396,7 @@ def run_case(desc):
                             key = step["key"]
                             if step["mode"] == "set" and key not in sp:
                                 key = sorted(sp)[step["i"] % len(sp)]
-                            sp[key] = untyped(step["val"])
+                            sp[key] = subst(untyped(step["val"]))
                         try:
                             job.reset_statepoint(sp)
                             live[k] = job.id
@@ -380,6 +404,8 @@ def run_case(desc):
                             pass
                 elif op == "view":
                     c = one_view(signac, _make_path_function, root, pdir, live, step, desc, si)
+                    if c is None:      # the call would have left (or tried to leave) the case directory: not executed further
+                        break
                     cases.append(c)
         finally:
             os.chdir(oldcwd)
@@ -421,10 +447,15 @@ def one_view(signac, _make_path_function, root, pdir, live, step, desc, si):
                 r = ("Err", exn_class(e))
         jrecs.append({"dir": job.path, "items": items, "pf": r, "id": job.id})
     allp = [j.path for j in project.find_jobs()]
+    for j in jrecs:
+        if j["pf"][0] == "Ok":
+            q = os.path.normpath(os.path.join(root, "a", "b", name, j["pf"][1], "job"))
+            if not q.startswith(os.path.join(root, "a") + os.sep):
+                return None
 
     def call(pref):
         p = signac.get_project(pdir)
-        with Tracer() as tr:
+        with Tracer(root) as tr:
             try:
                 r = p.create_linked_view(prefix=pref, job_ids=None if job_ids is None else list(job_ids), path=path)
                 res = ("Ok", [[k, v] for k, v in r.items()])
@@ -432,7 +463,10 @@ def one_view(signac, _make_path_function, root, pdir, live, step, desc, si):
                 res = ("Err", exn_class(e))
         base = pref + os.sep
         hint = [a[len(base):] if a.startswith(base) else a for a in tr.attempts]
+        escaped[0] = escaped[0] or tr.escaped
         return res, hint, tr.ops
+
+    escaped = [False]
 
     pre = snapshot(root)
     res1, hint1, _ = call(prefix)
@@ -442,6 +476,8 @@ def one_view(signac, _make_path_function, root, pdir, live, step, desc, si):
     res3, hint3, _ = call(sprefix)
     post3 = snapshot(root)
     shutil.rmtree(os.path.join(root, "a", "b", "s"), ignore_errors=True)
+    if escaped[0]:
+        return None
 
     # ---- canonicalise
     ab = Abbrev()
@@ -455,6 +491,10 @@ def one_view(signac, _make_path_function, root, pdir, live, step, desc, si):
         if j["pf"][0] == "Ok":
             ab.note(j["pf"][1])
     ab.finish()
+    ab0 = ab
+
+    def ab(x):   # noqa: F811  -- the case directory is the root of the model's world
+        return ab0(x[len(root):] if x.startswith(root + os.sep) else x)
 
     def rp(p):   # absolute path -> abbreviated components from the root
         return [ab(c) for c in rel_to_root(root, p)]
@@ -478,7 +518,7 @@ def one_view(signac, _make_path_function, root, pdir, live, step, desc, si):
 
     jobs_coq = coq_list([
         "{| j_dir := %s; j_items := %s; j_pf := %s |}" % (
-            coq_path(rp(j["dir"])), coq_list([coq_str(x) for x in j["items"]], "str"),
+            coq_path(rp(j["dir"])), coq_list([coq_str(ab(x)) for x in j["items"]], "str"),
             ("(Ok %s)" % coq_str(ab(j["pf"][1]))) if j["pf"][0] == "Ok" else ("(Err %s)" % j["pf"][1]))
         for j in jrecs], "job")
     call_coq = "{| c_cwd := %s; c_prefix := %s; c_jobs := %s; c_pfmake := %s; c_all := %s |}" % (
